@@ -11,5 +11,6 @@ func TestReplay(t *testing.T) {
 		"HarnessAuthHandler": HarnessAuthHandler,
 		"HarnessHasPerm":     HarnessHasPerm,
 		"HarnessProxy":       HarnessProxy,
+		"HarnessProxyShared": HarnessProxyShared,
 	})
 }
